@@ -924,6 +924,8 @@ def check(run: common.Run):
         hist["sem:" + ("diverges" if c[3] is None else c[3][0][0])] += 1
     nontrivial = {(n, M.g_prog(p)) for (k, n, p, src, out, q) in rule_items if q != p}
     modelled = sorted(RULES) + (sorted(expr.get("modelled_rules", [])) if expr else [])
+    for tname, (tmod, tres) in extra.items():
+        modelled += sorted((tres or {}).get("modelled_rules", []))
     all_rules = sw["rules"]
     run.coverage.update(
         evaluations=len(sem) + len(bl) + len(rule_items) + n_oracle + sw["executions"] + (expr or {}).get("evaluations", 0),
@@ -987,6 +989,14 @@ def replay(path: str) -> int:
         c02_expr = None
     if c02_expr is not None and (str(data.get("kernel", "")).startswith("RulesExpr") or data.get("tranche") == "expr"):
         return c02_expr.replay(mods, data) or 0
+    for tname in EXTRA_TRANCHES:
+        if data.get("tranche") == tname:
+            try:
+                tmod = __import__(f"harness.c02_{tname}", fromlist=["replay"])
+            except ImportError:
+                continue
+            if hasattr(tmod, "replay"):
+                return tmod.replay(mods, data) or 0
     print(json.dumps({k: data[k] for k in data if k in ("kind", "explanation", "site", "rule", "kernel")}, indent=1))
     if data.get("source") and (data.get("site") or data.get("rule")):
         name = data.get("site") or data.get("rule")
